@@ -22,10 +22,13 @@ CaseClauses(c) ==
      Cl("C13.Equal.Rows", cl = "Ctor" /\ c.ct = "ok" /\ c.ff = "ok", c.ra = c.rb),
      Cl("C13.Equal.Probe", cl = "Ctor" /\ c.ct = "ok" /\ c.ff = "ok", c.pa = c.pb),
      \* the file is the only input of the loader: loading it a second time gives the same outcome and component
-     Cl("C13.Reload", TRUE, c.ff2 = c.ff /\ c.da2 = c.da) >>
+     Cl("C13.Reload", TRUE, c.ff2 = c.ff /\ c.da2 = c.da),
+     \* ... and changes nothing else: a fixed reference system built by the constructors (default limits, default optional
+     \* parameters) shows the same params() / limits() rows and the same solved table as before any file was loaded
+     Cl("C13.Isolated", c.ref # "", c.ref = c.ref0) >>
 
 AllClauseNames == {"C13.KeyError", "C13.TypeGate", "C13.BothFaults", "C13.SameVerdict", "C13.Equal.Payload",
-                   "C13.Equal.Rows", "C13.Equal.Probe", "C13.Reload", "events"}
+                   "C13.Equal.Rows", "C13.Equal.Probe", "C13.Reload", "C13.Isolated", "events"}
 RECURSIVE SetToSeq(_)
 SetToSeq(X) == IF X = {} THEN <<>> ELSE LET x == CHOOSE x \in X : TRUE IN <<x>> \o SetToSeq(X \ {x})
 TInit == ci = 1 /\ verd = <<>> /\ stat = [c \in AllClauseNames |-> 0]
